@@ -22,7 +22,7 @@ ASSUMPTIONS = [
     "a floating-point division by zero is modelled as `non-finite values produced` (the run ends in Broke); +-inf and NaN are merged",
     "PCG: the preconditioner is an arbitrary map in the theorems; in the correspondence runs it is the matrix defined by the implementation's own ml->cycle(0, e_j) (linearity of the cycle probed per case)",
     "exact-model comparison for sizes 1..12 and few iterations (the rationals grow quadratically/exponentially); sizes 30..2000 are judged by the oracle alone",
-    "solver variants SeqInner_/SeqNorm_/PI_/Pre_BiCGStab and partial_inner.cpp are not modelled",
+    "solver variants PI_BiCGStab and partial_inner.cpp are not exercised; SeqInner_/SeqNorm_ variants are compared with the BiCGStab model, Pre_BiCGStab by the residual / stopping oracle only",
 ]
 OCAML_SRCS = ("conv.ml", "mat.ml", "drv_krylov.ml")
 PROCS = (1, 2, 3, 5)
@@ -151,15 +151,18 @@ def gen_all(ctx):
     ctr = [0]
     wflag = [False]           # ids starting with w: the driver builds a deliberately weak preconditioner (long PCG runs)
     def cid():
-        ctr[0] += 1; return ("wk%d" if wflag[0] else "k%d") % ctr[0]
+        # ids starting with h: the history vector passed in already holds three entries (a caller reusing one vector over several
+        # solves); the driver reports whether they survived and strips them
+        ctr[0] += 1; return ("wk%d" if wflag[0] else ("hk%d" if rng.random() < 0.25 else "k%d")) % ctr[0]
     gctr = [0]
 
     def add_group(kindsolver, n, trip, b, x0, tol, maxit, tags, small, xstar=None, procs=PROCS, seq=True):
         gctr[0] += 1; g = "g%d" % gctr[0]
-        if seq and kindsolver != "pcg":
+        if seq and kindsolver not in ("pcg", "prebi"):
             cases.append(Case(cid(), kindsolver + "_seq", n, trip, b, x0, tol, maxit, [], g, tags, small, xstar))
         for P in procs:
             sizes = rand_parts(rng, n, P)
+            if kindsolver == "prebi" and min(sizes) == 0: sizes = even(n, P)
             if kindsolver == "pcg" and (min(sizes) == 0): sizes = rand_parts(rng, n, P) if False else even(n, P)
             if kindsolver == "pcg" and min(sizes) == 0: continue      # the AMG setup is not C17's subject: no empty ranks
             cases.append(Case(cid(), kindsolver + "_par", n, trip, b, x0, tol, maxit, sizes, g, tags, small, xstar))
@@ -254,6 +257,17 @@ def gen_all(ctx):
         wflag[0] = True
         add_group("pcg", n, trip, b, x0, Fraction(1, 2**80), rng.choice([8, 9, 10, 16, 17]), ["pcg_long", "generic"], False, xs, procs=procs, seq=False)
         wflag[0] = False
+    # ---- BiCGStab preconditioned with an AMG cycle (Pre_BiCGStab; oracle only): true residuals, stopping rule, zero right-hand
+    # side with a non-zero start, start at the exact solution
+    for k in range(ctx.scale(10, 80)):
+        n = rng.choice([12, 16, 24, 40])
+        trip = big_matrix(rng, n, sym=rng.random() < 0.7)
+        xs = rand_vec(rng, n, True); r_ = rng.random()
+        if r_ < 0.3: b = [Fraction(0)] * n; x0 = rand_vec(rng, n, True); tag = "b0_xrand"
+        elif r_ < 0.45: b = matvec(n, trip, xs); x0 = list(xs); tag = "exact_start"
+        else: b = matvec(n, trip, xs); x0 = [Fraction(0)] * n if rng.random() < 0.5 else rand_vec(rng, n, True); tag = "generic"
+        procs = tuple(rng.sample([1, 2, 3], 2)) if ctx.tier == "quick" else (1, 2, 3)
+        add_group("prebi", n, trip, b, x0, rng.choice([Fraction(1, 2**10), Fraction(1, 2**20), Fraction(1, 2**30)]), rng.choice([1, 2, 3, 20]), ["prebi", tag], False, xs, procs=procs, seq=False)
     # ---- badly scaled systems: right-hand side and start scaled by 2^-70 (||r0|| far below 1e-16; the stopping rule is relative)
     for k in range(ctx.scale(10, 80)):
         n = rng.choice([2, 3, 4, 6, 8]); solver = rng.choice(["cg", "bi", "bi"])
@@ -356,6 +370,7 @@ class Impl:
         else:
             self.res = [nums.parse_num(t) for t in R]; self.x = [nums.parse_num(t) for t in X]; self.same = True
         self.finite = finite_list(self.res) and finite_list(self.x)
+        H = get(r, "H"); self.hist_kept = (H is None) or all(t in ("1",) or t.startswith("@") for t in H)
         self.M = None; self.PL = None
         if c.kind == "pcg":
             M, PL = get(r, "M"), get(r, "PL")
@@ -384,7 +399,7 @@ def true_res_norm(c, x):
 
 
 def sigbase(c): return {"cg_seq": "cg", "cg_par": "cg_par", "bi_seq": "bicgstab", "bi_par": "bicgstab_par", "pcg_par": "pcg",
-                        "bi_par_si": "bicgstab_par", "bi_par_sn": "bicgstab_par", "bi_par_sisn": "bicgstab_par"}[c.solver]
+                        "prebi_par": "bicgstab_pre", "bi_par_si": "bicgstab_par", "bi_par_sn": "bicgstab_par", "bi_par_sisn": "bicgstab_par"}[c.solver]
 
 
 # ------------------------------------------------------------------ oracle (implementation output only)
@@ -392,6 +407,8 @@ def oracle(ctx, c, I):
     sb = sigbase(c)
     if not I.same:
         ctx.signal("O", sb + ":ranks_disagree", "ranks report different residual histories: %s" % (I.rank_hists,), case=c.line)
+    if not I.hist_kept:
+        ctx.signal("O", sb + ":history_overwritten", "entries already present in the caller's history vector were changed or removed", case=c.line)
     if not I.res:
         ctx.signal("O", sb + ":no_history", "empty residual history", case=c.line); return
     if not I.finite: return                          # judged with the model's help (breakdown classes) in compare()
@@ -402,7 +419,7 @@ def oracle(ctx, c, I):
     tol = float(c.tol); lim = c.maxit_eff(); its = len(res) - 1
     if its > lim:
         ctx.signal("O", sb + ":limit", "%d iterations reported, limit %d" % (its, lim), case=c.line)
-    if c.kind in ("cg", "bi"):
+    if c.kind in ("cg", "bi", "prebi"):
         rep_scale = 1.0
         if c.solver == "cg_par": rep_scale = bnorm if bnorm >= ZT else 1.0
         # (1) reported residuals are true residuals: first and last entry against b - A x0 and b - A x_returned
@@ -459,7 +476,7 @@ def group_oracle(ctx, group):
     ref_c, ref_I = max(fin, key=lambda ci: len(ci[1].res)); ref = unscaled(ref_c, ref_I)
     floor = 1e-7 * max(ref[0], 1e-300)
     for c, I in fin:
-        if c is ref_c or c.kind == "pcg": continue
+        if c is ref_c or c.kind in ("pcg", "prebi"): continue      # the AMG preconditioner depends on the partition
         h = unscaled(c, I)
         for k, (a, b_) in enumerate(zip(h, ref)):
             if max(a, b_) <= floor: break
